@@ -1026,6 +1026,51 @@ __CPROVER_assigns()
     U.append(Unit("column_order.strict_total_order", "C11", [mk("")], no_enforce=True, globals_=G, inputs=["a", "b", "c"], harness=H(lem, ""),
                   desc="lemma: the column order is a strict total order on entries with distinct simplex indices, so sorted columns and heap pops are uniquely determined"))
 
+def pop_pivot_units(U):
+    """pop_pivot / get_pivot: a working column is a heap of entries, possibly several with the same simplex index (the lazy
+    sum).  The heap is modelled by the sequence in which it pops (ghost array; the comparator unit says what that order
+    is): pop_pivot adds up the coefficients of each run of equal indices modulo the characteristic and returns the first
+    run whose sum is not zero - as one entry carrying that sum - or nothing."""
+    KP = 5
+    G = ND + f"""
+typedef float value_t; typedef unsigned long simplex_t; typedef unsigned int coefficient_t;
+#define KP {KP}
+typedef struct {{ value_t diam; simplex_t id; coefficient_t coef; }} dentry;
+typedef struct {{ bool has; value_t diam; simplex_t id; coefficient_t coef; }} vp_opt;
+#define VP_NONE ((vp_opt){{false, 0, 0, 0}})
+coefficient_t modulus; dentry g_col[KP]; unsigned g_ncol, g_cpos; unsigned g_pushed; dentry g_push_e;
+coefficient_t __CPROVER_uninterpreted_addmod(coefficient_t a, coefficient_t b);   /* (a + b) % modulus: uninterpreted, so that code and specification meet on the term (two dividers are never matched by the solvers); its range [0, modulus) is assumed at the call */
+static coefficient_t vp_addmod(coefficient_t a, coefficient_t b) {{ coefficient_t r = __CPROVER_uninterpreted_addmod(a, b); __CPROVER_assume(r < modulus); return r; }}
+static bool col_empty(void) {{ return g_cpos >= g_ncol; }}
+static dentry col_top(void) {{ __CPROVER_assert(g_cpos < g_ncol, "top() of a non-empty column"); return g_col[g_cpos]; }}
+static void col_pop(void) {{ __CPROVER_assert(g_cpos < g_ncol, "pop() of a non-empty column"); g_cpos++; }}
+static void col_push(dentry e) {{ g_pushed++; g_push_e = e; }}
+/* specification: walk the runs of equal index; the first run with a non-zero sum */
+static vp_opt x_pivot(unsigned* consumed) {{ vp_opt r = VP_NONE; unsigned k = 0; bool done = false;
+  for (unsigned it = 0; it < KP; it++) if (!done && k < g_ncol) {{ simplex_t id = g_col[k].id; coefficient_t s = g_col[k].coef; value_t d = g_col[k].diam; unsigned j = k + 1; bool zero = false;
+      for (unsigned it2 = 0; it2 < KP; it2++) if (!zero && j < g_ncol && g_col[j].id == id) {{ s = __CPROVER_uninterpreted_addmod(s, g_col[j].coef); j++; if (s == 0) zero = true; }}
+      if (!zero) {{ r.has = true; r.id = id; r.coef = s; r.diam = d; done = true; }}
+      k = j; }}
+  *consumed = done ? k : g_ncol; return r; }}
+static bool col_ok(void) {{ bool ok = g_ncol <= KP && modulus >= 2 && modulus <= 65521; for (unsigned k = 0; k < KP; k++) ok = ok && g_col[k].coef >= 1 && g_col[k].coef < modulus; return ok; }}
+static bool P_pop(vp_opt ret) {{ unsigned c = 0; vp_opt w = x_pivot(&c); return ret.has == w.has && (!w.has || (ret.id == w.id && ret.coef == w.coef)) && g_cpos == c; }}
+"""
+    SS = [(r"template <typename Column>", "", 0), (r"std::optional<diameter_entry_t>", "vp_opt"), (r"\(Column& column\)", "(void)")]
+    subs = [(r"\bdiameter_entry_t\b", "dentry"), (r"column\.empty\(\)", "col_empty()"), (r"column\.top\(\)", "col_top()"), (r"column\.pop\(\);", "col_pop();"),
+            (r"filt\.get_index\((col_top\(\)|\w+)\)", r"\1.id"), (r"filt\.get_coefficient\((col_top\(\)|\w+)\)", r"\1.coef"),
+            (r"\(([\w.()]+) \+ ([\w.()]+)\) % modulus", r"vp_addmod(\1, \2)"),
+            (r"filt\.set_coefficient\((\w+), (\w+)\);", r"\1.coef = \2;"), (r"return pivot;", "return (vp_opt){true, pivot.diam, pivot.id, pivot.coef};"), (r"std::nullopt", "VP_NONE")]
+    fn = Fn(RP, r"template <typename Column> std::optional<diameter_entry_t> pop_pivot\(Column& column\)", "pop_pivot", """
+__CPROVER_requires(col_ok() && g_cpos == 0)
+__CPROVER_ensures(P_pop(__CPROVER_return_value))
+__CPROVER_assigns(g_cpos)
+""", sig_subs=SS, subs=subs, canary=(r"if \(sum == 0\) \{", "if (sum == 1) {"))
+    U.append(Unit("reduction.pop_pivot", "C11", [fn], enforce="pop_pivot", globals_=G, unwind=KP + 2, route="B",
+                  bound=f"columns of at most {KP} heap entries; ids, coefficients and the modulus (<= 65521) symbolic", inputs=["g_ncol", "modulus", "g_col"], replay=replay_by_native_search,
+                  runs=[Run(backend="sat", timeout=600)],
+                  harness=H("  g_ncol = nondet_uint(); modulus = nondet_uint(); g_cpos = 0;\n  for (int k = 0; k < KP; k++) { g_col[k].id = nondet_ulong(); g_col[k].coef = nondet_uint(); g_col[k].diam = nondet_float(); }", "pop_pivot();"),
+                  desc="pop_pivot: entries with the same simplex index that the heap pops consecutively are added up modulo the characteristic (the modular addition itself is uninterpreted); the first index whose sum is not zero is returned with that sum, everything before it (sums equal to zero) is consumed; nothing is returned when every index cancels"))
+
 def enumerator_units(U):
     """dense Simplex_coboundary_enumerator_::next(): filters the raw cofacets by the threshold.  next_raw (the
     enumeration itself) is a ghost stub that yields an arbitrary finite sequence of candidates."""
@@ -1296,6 +1341,7 @@ def units(tier):
     add_coboundary_units(U)
     get_edges_units(U)
     column_order_units(U)
+    pop_pivot_units(U)
     return U
 
 
